@@ -439,6 +439,30 @@ def rule_rebuild_keeps_all(ctx, rep, rule_id="R-REBUILD-KEEPS-ALL"):
                 fa = FlowAnalysis(wrapper, ev, body=body)
                 ends = [e.state for e in fa.exits if e.kind == "end"] + [fa.state_at(s_) for st in body for s_ in ast.walk(st) if isinstance(s_, ast.Continue) and fa.state_at(s_) is not None]
                 ok = bool(ends) and all(has_event(s_, "EV:app") for s_ in ends)
+                if not ok and ends:
+                    # an element that was put into the output list *before* the loop (`new = [receiver]` ... `if d != receiver: new.append(d)`)
+                    # is not lost when its own iteration appends nothing: accept an iteration without append only under `elem == K` for such a K
+                    out_names = {c.func.value.id for c in apps}
+                    prefilled: set[str] = set()
+                    for a in walk_no_nested(m.node):
+                        if isinstance(a, ast.Assign) and len(a.targets) == 1 and isinstance(a.targets[0], ast.Name) and a.targets[0].id in out_names \
+                                and isinstance(a.value, (ast.List, ast.Tuple)) and a.lineno < lp.lineno:
+                            prefilled |= {e.id for e in a.value.elts if isinstance(e, ast.Name)}
+
+                    def moved_earlier(state) -> bool:
+                        for must, _may in state.parts:
+                            if (True, "EV:app") in must:
+                                continue
+                            eq = False
+                            for pol, txt in must:
+                                for k in prefilled:
+                                    if (not pol and txt in (f"{lv} != {k}", f"{lv} is not {k}", f"{k} != {lv}")) or (pol and txt in (f"{lv} == {k}", f"{lv} is {k}", f"{k} == {lv}", f"{k} is {lv}")):
+                                        eq = True
+                            if not eq:
+                                return False
+                        return True
+
+                    ok = bool(prefilled) and all(moved_earlier(s_) for s_ in ends)
                 ex = REBUILD_EXEMPT_PARTITION.get(cq) if part_stores else None
                 if not ok and ex:
                     rep.instance(rule_id, m.qname, m.loc(lp), True, detail=f"for {lv} in {unparse(it)[:30]}", exempt=ex)
